@@ -577,7 +577,9 @@ namespace Cocls.Sched.Stop
 
 structure Inv (s : St) : Prop where
   excl : (s.sp = SPc.holding ∨ s.sp = SPc.notified) → s.w ≠ WPc.locked
-  after : (s.sp = SPc.notified ∨ s.sp = SPc.done) → (s.w = WPc.idle ∨ s.w = WPc.exited)
+  /-- once the notification is out the worker is not parked (and does not hold `_mx`): it is at the loop top, has left,
+  or is resolving a promise with `_mx` released (from where its next step is the loop condition) -/
+  after : (s.sp = SPc.notified ∨ s.sp = SPc.done) → (s.w = WPc.idle ∨ s.w = WPc.exited ∨ s.w = WPc.resolving)
   flagged : s.sp ≠ SPc.start → s.flag = true
   nogap : s.w ≠ WPc.gap        -- the repaired code has no unlock between the stop check and the wait
 
